@@ -75,6 +75,10 @@ def edges(sample_k, mx, timeout=600, **kw):
     return {"mode": "edges", "sample_k": sample_k, "max": mx, "timeout": timeout, "constants": c(**kw)}
 
 
+def deep(count):
+    return {"mode": "deep", "count": count}
+
+
 def drv(count, steps, weights, nkeys=None, **kw):
     d = {"mode": "drive", "count": count, "steps": steps, "weights": weights, "kw": kw}
     if nkeys:
@@ -171,13 +175,13 @@ PROFILES = {
         6, ["READ", "SCAN", "SCANX", "OPFAIL"],
         c(Ops=CORE1, MaxSeq=4),
         [sim(12, 22, MaxSeq=14, MaxTables=5, MaxHist=20, MaxSealed=2, Ops=CORE1 | {"snap"}, MaxSnaps=1, WriteBias=3),
-         drv(12, 140, DRIVE_SNAP_W)],
+         drv(12, 140, DRIVE_SNAP_W), deep(2)],
         c(Ops=CORE1, MaxSeq=5),
         [sim(200, 30, Keys={1, 2, 3}, MaxSeq=24, MaxTables=6, MaxHist=30, MaxSealed=2, Ops=CORE1 | {"snap"},
              MaxSnaps=1, WriteBias=4),
-         drv(100, 400, DRIVE_SNAP_W)],
+         drv(100, 400, DRIVE_SNAP_W), deep(12)],
         phys_count=96, replicate=4, harness_args=["--share-pairs"], scans={"prob": 0.4, "burst": 2},
-        val_alphas=[0, 1]),
+        val_alphas=[0, 1, 2], blobs=[None, BLOBS[1], BLOBS[7], None, BLOBS[6], BLOBS[0]]),
     # C13 weak deletes under the single-delete discipline
     "C13": tree_profile(
         4, ["READ", "SCAN", "OPFAIL"],
@@ -247,11 +251,11 @@ PROFILES = {
     "C18": tree_profile(
         6, ["HI", "HIA"],
         c(Ops=CORE1, MaxSeq=5),
-        [sim(50, 22, MaxSeq=14, MaxTables=5, MaxHist=20, Ops=CORE1 | {"ingest", "clear"}, WriteBias=3),
+        [sim(50, 22, MaxSeq=14, MaxTables=5, MaxHist=20, Ops=CORE1 | {"ingest", "clear", "pair"}, WriteBias=3),
          drv(24, 160, dict(DRIVE_W, ingest=0.7, clear=0.2, droprange=0.5))],
         c(Ops=CORE_OPS | {"ingest"}, MaxSeq=6),
         [sim(1500, 30, Keys={1, 2, 3}, MaxSeq=24, MaxTables=6, MaxHist=30,
-             Ops=CORE_OPS | {"ingest", "clear"}, WriteBias=4),
+             Ops=CORE_OPS | {"ingest", "clear", "pair"}, WriteBias=4),
          drv(400, 400, dict(DRIVE_W, ingest=0.7, clear=0.2, droprange=0.5))]),
 }
 
